@@ -102,18 +102,22 @@ def split_locs(raw, out):
     os.unlink(raw)
     return locs
 
-def driver_failure(rep, d, what):
+def driver_failure(rep, d, what, history_of=None):
     err = d['stderr'].decode(errors='replace')
     ctx = [l for l in err.splitlines() if l.startswith('DRV_HEAP_CONTEXT')]
-    det = dict(run=what, rc=d['rc'], stderr=err[-2500:])
+    i = err.find('ERROR: AddressSanitizer')
+    det = dict(run=what, rc=d['rc'], stderr=(err[i:i + 1500] if i >= 0 else err[:1500]))
     if ctx:
         try:
-            det['context'] = json.loads(ctx[-1][len('DRV_HEAP_CONTEXT '):])
-        except ValueError:
+            det['transition'] = json.loads(ctx[-1][len('DRV_HEAP_CONTEXT '):])
+            if history_of:
+                det.update(history_of(det['transition'].pop('loc')))
+        except (ValueError, KeyError, IndexError):
             pass
-    if d['rc'] == 97 and 'AddressSanitizer' in err:
-        k = 'write-outside-heap' if 'WRITE of size' in err else 'read-outside-heap' if 'READ of size' in err else 'sanitizer-report'
-    elif d['rc'] == 98:
+    if 'AddressSanitizer' in err:
+        k = 'write-outside-heap' if ('WRITE of size' in err or 'caused by a WRITE' in err) else \
+            'read-outside-heap' if ('READ of size' in err or 'caused by a READ' in err) else 'sanitizer-report'
+    elif 'runtime error' in err:
         k = 'undefined-behaviour'
     elif d.get('timeout'):
         k = 'driver-hang'
@@ -124,22 +128,65 @@ def driver_failure(rep, d, what):
 def explore(rep, exe, w, size, cap, maxstates):
     raw = '%s/x_%d_%d.raw' % (w, size, cap)
     d = lib.run_driver(exe, ['explore', size, cap, maxstates, raw, -100], timeout=600)
-    if d['rc'] != 0:
+    if not (os.path.exists(raw + '.tree') and os.path.exists(raw + '.ops')):
         driver_failure(rep, d, 'explore size=%d cap=%d' % (size, cap))
         return None
-    info = json.loads(d['stdout'].decode().strip().splitlines()[-1])
-    tree = [tuple(map(int, l.split())) for l in open(raw + '.tree')]
+    tree = [tuple(map(int, l.split())) for l in open(raw + '.tree') if len(l.split()) == 2]
     ops = open(raw + '.ops').read().splitlines()
     os.unlink(raw + '.tree'); os.unlink(raw + '.ops')
-    nd = raw[:-4] + '.ndjson'
-    locs = split_locs(raw, nd)
     def hist(sid):
         h = []
-        while sid is not None and sid > 0:
+        while sid is not None and 0 < sid < len(tree):
             par, op = tree[sid]
             h.append(ops[op]); sid = par
         return dict(history=list(reversed(h)), size=size, cap=cap)
+    if d['rc'] != 0:
+        # the run was stopped (sanitizer, crash): report it, and still judge what was recorded before
+        driver_failure(rep, d, 'explore size=%d cap=%d' % (size, cap), hist)
+        info = dict(concrete_states=len(tree), transitions=0, alphabet=len(ops), complete=False, stopped=True)
+        subprocess.run("grep -a -E '\t[0-9]+$' %s > %s.ok; mv %s.ok %s" % (raw, raw, raw, raw), shell=True)
+    else:
+        info = json.loads(d['stdout'].decode().strip().splitlines()[-1])
+    nd = raw[:-4] + '.ndjson'
+    locs = split_locs(raw, nd)
     return info, nd, locs, hist
+
+def replay_counterexample(rep, exe, w, r, cfg):
+    """A TLC counterexample of the ring-algorithm model: run the same history on the real heap build.
+    If the real build misbehaves the same way it is a genuine defect (violation); if not, the model is wrong (broken check)."""
+    import re
+    ops, size, cap = [], None, None
+    for blk in re.split(r'\nState \d+:', r.out)[1:]:
+        m = re.search(r'/\\ last = (<<.*>>)', blk)
+        ms, mc = re.search(r'/\\ size = (\d+)', blk), re.search(r'/\\ cap = (\d+)', blk)
+        if ms and mc:
+            size, cap = int(ms.group(1)), int(mc.group(1))
+        if not m:
+            continue
+        o = lib.parse_tla(m.group(1))
+        if o and o[0] == 'push':
+            t = o[2]
+            ops.append('push %d %d %d 0' % (o[1], 1 if set(t) <= {97} else 2 if set(t) <= {98} else 3, len(t)))
+        elif o and o[0] in ('pop', 'clear'):
+            ops.append(o[0])
+    if size is None or not ops:
+        rep.broken.append('the ring-algorithm model violates %s in %s (counterexample not parsed)' % (r.violations, cfg))
+        return
+    with open(w + '/cex.txt', 'w') as f:
+        f.write('\n'.join(ops) + '\n')
+    d = lib.run_driver(exe, ['path', size, cap, w + '/cex.txt', w + '/cex.raw'])
+    if d['rc'] != 0:
+        driver_failure(rep, d, 'model counterexample %s size=%d cap=%d: %s' % (cfg, size, cap, ' ; '.join(ops)))
+        return
+    nd = w + '/cex.ndjson'
+    locs = split_locs(w + '/cex.raw', nd)
+    b = Batch()
+    b.add(nd, locs, lambda loc: dict(history=ops[:-1], size=size, cap=cap), 'model-counterexample')
+    before = len(rep.viol) + len(rep.known_hits)
+    validate(rep, w, b, 'cex', procs=1)
+    if len(rep.viol) + len(rep.known_hits) == before:
+        rep.broken.append('the ring-algorithm model violates %s in %s but the real heap build behaves correctly on that history (%s): the model is wrong'
+                          % (r.violations, cfg, ' ; '.join(ops)))
 
 def projections(nd, proj):
     with open(nd) as f:
@@ -190,9 +237,10 @@ def run(pid, tier):
             projections(nd, proj_quick)
         rep.cov['driver_runs'].append(dict(size=size, cap=cap, impl_concrete_states=info['concrete_states'], impl_transitions=info['transitions'],
                                            alphabet=info['alphabet'], complete=info['complete'], distinct_records=len(locs)))
-        if not info['complete']:
+        if not info['complete'] and not info.get('stopped'):
             rep.broken.append('exploration size=%d cap=%d incomplete' % (size, cap))
-        batch.add(nd, locs, hist, 'explore-%d-%d' % (size, cap))
+        if locs:
+            batch.add(nd, locs, hist, 'explore-%d-%d' % (size, cap))
         flush()
     flush(True)
     # ---- V
@@ -222,7 +270,7 @@ def run(pid, tier):
         rep.add_tlc(c[0][:-4], r, 'model checking of ScpiHeap layer (b) incl. refinement of layer (a): ' + c[1])
         model_states[c[0]] = r.distinct
         if r.violations:
-            rep.broken.append('the ring-algorithm model violates %s in %s (replay the counterexample on the heap build)' % (r.violations, c[0]))
+            replay_counterexample(rep, exe, w, r, c[0])
         elif 'sim' not in c[0] and not r.finished and not r.errors:
             rep.broken.append('model checking %s did not finish' % c[0])
     ex.shutdown()
@@ -258,7 +306,9 @@ def replay(pid, path):
             r = lib.run_driver(exe, ['path', det['size'], det['cap'], w + '/ops.txt', w + '/r.raw'])
             print('REPLAY %d kind=%s: %d operations on heap size %d, capacity %d: %s' % (n, v['kind'], len(det['history']) + 1, det['size'], det['cap'], ' ; '.join(det['history'] + [last])))
             if r['rc'] != 0:
-                print('REPLAY driver rc=%d %s' % (r['rc'], r['stderr'].decode(errors='replace')[-1500:]))
+                err = r['stderr'].decode(errors='replace')
+                i = max(err.find('ERROR: AddressSanitizer'), 0)
+                print('REPLAY the heap build stops (rc=%d): %s' % (r['rc'], err[i:i + 700]))
                 rc = 1
                 continue
             with open(w + '/r.raw') as f, open(nd, 'w') as o_:
